@@ -611,9 +611,15 @@ def units(tier, seed):
     us = []
     progs = program_set(tier)
     CH = 6 if tier == 'quick' else 10
+    small = [pr for pr in progs if pr[1] == 'd1']
+    big = [pr for pr in progs if pr[1] != 'd1']
     for rk in rec_kinds(tier):
-        for i in range(0, len(progs), CH):
-            us.append({'progs': progs[i:i + CH], 'reckind': rk, 'tier': tier, 'seed': seed})
+        # scenario / depth-2 programs one per unit and first: their state graphs are the largest, and a violation found in one
+        # of them is reported without waiting for its neighbours
+        for pr in big:
+            us.append({'progs': [pr], 'reckind': rk, 'tier': tier, 'seed': seed})
+        for i in range(0, len(small), CH):
+            us.append({'progs': small[i:i + CH], 'reckind': rk, 'tier': tier, 'seed': seed})
     for name in PROGS2:
         us.append({'two_inputs': name, 'tier': tier, 'seed': seed})
     return us
